@@ -99,6 +99,7 @@ fn dispatch_case(cx: &mut Ctx, n: u64, case: &Value) {
         "sweep" => ops_sweep::sweep_case(cx, n, case),
         "valid" => ops_valid::valid_case(cx, n, case),
         "linemeasure" => ops_linemeasure::linemeasure_case(cx, n, case),
+        "linemeasure_general" => ops_linemeasure::linemeasure_general_case(cx, n, case),
         "traversal" => ops_traversal::traversal_case(cx, n, case),
         "affine_step" => ops_affine::affine_case(cx, n, case),
         "poly" => ops_poly::poly_case(cx, n, case),
